@@ -525,6 +525,151 @@ theorem evalCond_and (rows : List OptRow) (maps : List NameMap) (rt : Runtime) (
     | none => cases x <;> simp [Val.truthy]
     | some y => simp [Val.truthy]
 
+theorem flag_assignOf (o : Opts) (rt : Runtime) (c : String) (f : Bool) (h : (assignOf o rt).flag c = some f) :
+    f = decide (0 < countOf o c) := by
+  simp only [Assign.flag, assignOf] at h
+  split at h
+  · rename_i hx; simp only [beq_iff_eq] at hx; subst hx; exact (Option.some.inj h).symm
+  · split at h
+    · rename_i hx; simp only [beq_iff_eq] at hx; subst hx; exact (Option.some.inj h).symm
+    · split at h
+      · rename_i hx; simp only [beq_iff_eq] at hx; subst hx; exact (Option.some.inj h).symm
+      · split at h
+        · rename_i hx; simp only [beq_iff_eq] at hx; subst hx; exact (Option.some.inj h).symm
+        · split at h
+          · rename_i hx; simp only [beq_iff_eq] at hx; subst hx; exact (Option.some.inj h).symm
+          · cases h
+
+theorem isNum_count (rows : List OptRow) (maps : List NameMap) (rt : Runtime) (o : Opts) (c : String) :
+    IsNum (eval rows maps rt o (.count c)) (((countOf o c : Nat) : Int) : Rat) := by
+  simp [IsNum, eval, Val.num]
+
+theorem natRat_lt (n m : Nat) : ((((n : Nat) : Int) : Rat) < (((m : Nat) : Int) : Rat)) ↔ n < m := by
+  rw [Rat.intCast_lt_intCast]; omega
+
+theorem natRat_le (n m : Nat) : ((((n : Nat) : Int) : Rat) ≤ (((m : Nat) : Int) : Rat)) ↔ n ≤ m := by
+  rw [Rat.intCast_le_intCast]; omega
+
+theorem natRat_eq (n m : Nat) : ((((n : Nat) : Int) : Rat) = (((m : Nat) : Int) : Rat)) ↔ n = m := by
+  constructor
+  · intro h
+    have h1 := (natRat_le n m).mp (by rw [h]; exact Rat.le_refl)
+    have h2 := (natRat_le m n).mp (by rw [h]; exact Rat.le_refl)
+    omega
+  · intro h; rw [h]
+
+theorem natRat_eq_zero (n : Nat) : ((((n : Nat) : Int) : Rat) = 0) ↔ n = 0 := by
+  simpa using natRat_eq n 0
+
+theorem natRat_le_zero (n : Nat) : ((((n : Nat) : Int) : Rat) ≤ 0) ↔ n ≤ 0 := by
+  simpa using natRat_le n 0
+
+theorem natRat_pos (n : Nat) : ((0 : Rat) < (((n : Nat) : Int) : Rat)) ↔ 0 < n := by
+  simpa using natRat_lt 0 n
+
+theorem natRat_lt_one (n : Nat) : ((((n : Nat) : Int) : Rat) < 1) ↔ n < 1 := by
+  simpa using natRat_lt n 1
+
+theorem natRat_one_le (n : Nat) : ((1 : Rat) ≤ (((n : Nat) : Int) : Rat)) ↔ 1 ≤ n := by
+  simpa using natRat_le 1 n
+
+/-- `==` / `!=` of two numeric values -/
+theorem evalCond_bin_eqne (rows : List OptRow) (maps : List NameMap) (rt : Runtime) (o : Opts) (op : BinOp)
+    (a b : Expr) (x y : Rat) (hop : op = .eq ∨ op = .ne) (ha : IsNum (eval rows maps rt o a) x)
+    (hb : IsNum (eval rows maps rt o b) y) :
+    evalCond rows maps rt o (.bin op a b) = some (cmpOp op x y) := by
+  obtain ⟨hax, has⟩ := ha
+  obtain ⟨hby, _⟩ := hb
+  simp only [evalCond, eval]
+  cases hva : eval rows maps rt o a with
+  | s t => exact absurd hva (has t)
+  | b v => rcases hop with rfl | rfl <;> simp [hva, hax, hby, Val.truthy] at * <;> simp [hax, hby, Val.truthy]
+  | i v => rcases hop with rfl | rfl <;> simp [hva, hax, hby, Val.truthy] at * <;> simp [hax, hby, Val.truthy]
+  | d v => rcases hop with rfl | rfl <;> simp [hva, hax, hby, Val.truthy] at * <;> simp [hax, hby, Val.truthy]
+  | c v => simp [hva, Val.num] at hax
+  | err v => simp [hva, Val.num] at hax
+
+/-- `opt.count(X) ⋈ 0/1` tests presence or absence of the flag -/
+theorem count_cmp_sound (rows : List OptRow) (maps : List NameMap) (rt : Runtime) (o : Opts) (op : BinOp)
+    (c s : String) (b : Bool)
+    (h : (match countCmp op s, (assignOf o rt).flag c with
+          | some pol, some f => some (if pol then f else !f)
+          | _, _ => none) = some b) :
+    evalCond rows maps rt o (.bin op (.count c) (.lit .int s)) = some b := by
+  cases hf : (assignOf o rt).flag c with
+  | none => cases countCmp op s <;> simp [hf] at h
+  | some f =>
+    have hfd := flag_assignOf o rt c f hf
+    subst hfd
+    have h0 : parseIntCxx ['0'] = some 0 := by decide +kernel
+    have h1 : parseIntCxx ['1'] = some 1 := by decide +kernel
+    have hz : IsNum (eval rows maps rt o (.lit .int "0")) (0 : Rat) := by
+      simp [IsNum, eval, litVal, Val.num, h0]
+    have ho : IsNum (eval rows maps rt o (.lit .int "1")) (1 : Rat) := by
+      simp [IsNum, eval, litVal, Val.num, h1]
+    have hc := isNum_count rows maps rt o c
+    by_cases hs0 : s = "0"
+    · subst hs0
+      cases op <;> simp [countCmp, hf] at h
+      · rw [evalCond_bin_eqne rows maps rt o .eq _ _ _ _ (Or.inl rfl) hc hz]
+        simp only [cmpOp, gt_iff_lt, ge_iff_le]
+        by_cases hp : 0 < countOf o c
+        · have hq : ¬ countOf o c = 0 := by omega
+          simp [hp] at h
+          simp [natRat_eq_zero, natRat_le_zero, natRat_pos, natRat_lt_one, natRat_one_le, hq, h]
+        · have hq : countOf o c = 0 := by omega
+          simp [hp] at h
+          simp [natRat_eq_zero, natRat_le_zero, natRat_pos, natRat_lt_one, natRat_one_le, hq, h]
+      · rw [evalCond_bin_eqne rows maps rt o .ne _ _ _ _ (Or.inr rfl) hc hz]
+        simp only [cmpOp, gt_iff_lt, ge_iff_le]
+        by_cases hp : 0 < countOf o c
+        · have hq : ¬ countOf o c = 0 := by omega
+          simp [hp] at h
+          simp [natRat_eq_zero, natRat_le_zero, natRat_pos, natRat_lt_one, natRat_one_le, hq, h]
+        · have hq : countOf o c = 0 := by omega
+          simp [hp] at h
+          simp [natRat_eq_zero, natRat_le_zero, natRat_pos, natRat_lt_one, natRat_one_le, hq, h]
+      · rw [evalCond_bin_num rows maps rt o .le _ _ _ _ rfl hc hz]
+        simp only [cmpOp, gt_iff_lt, ge_iff_le]
+        by_cases hp : 0 < countOf o c
+        · have hq : ¬ countOf o c ≤ 0 := by omega
+          simp [hp] at h
+          simp [natRat_eq_zero, natRat_le_zero, natRat_pos, natRat_lt_one, natRat_one_le, hq, h]
+        · have hq : countOf o c ≤ 0 := by omega
+          simp [hp] at h
+          simp [natRat_eq_zero, natRat_le_zero, natRat_pos, natRat_lt_one, natRat_one_le, hq, h]
+      · rw [evalCond_bin_num rows maps rt o .gt _ _ _ _ rfl hc hz]
+        simp only [cmpOp, gt_iff_lt, ge_iff_le]
+        by_cases hp : 0 < countOf o c
+        · have hq : 0 < countOf o c := by omega
+          simp [hp] at h
+          simp [natRat_eq_zero, natRat_le_zero, natRat_pos, natRat_lt_one, natRat_one_le, hq, h]
+        · have hq : ¬ 0 < countOf o c := by omega
+          simp [hp] at h
+          simp [natRat_eq_zero, natRat_le_zero, natRat_pos, natRat_lt_one, natRat_one_le, hq, h]
+    · by_cases hs1 : s = "1"
+      · subst hs1
+        cases op <;> simp [countCmp, hf] at h
+        · rw [evalCond_bin_num rows maps rt o .lt _ _ _ _ rfl hc ho]
+          simp only [cmpOp, gt_iff_lt, ge_iff_le]
+          by_cases hp : 0 < countOf o c
+          · have hq : ¬ countOf o c < 1 := by omega
+            simp [hp] at h
+            simp [natRat_eq_zero, natRat_le_zero, natRat_pos, natRat_lt_one, natRat_one_le, hq, h]
+          · have hq : countOf o c < 1 := by omega
+            simp [hp] at h
+            simp [natRat_eq_zero, natRat_le_zero, natRat_pos, natRat_lt_one, natRat_one_le, hq, h]
+        · rw [evalCond_bin_num rows maps rt o .ge _ _ _ _ rfl hc ho]
+          simp only [cmpOp, gt_iff_lt, ge_iff_le]
+          by_cases hp : 0 < countOf o c
+          · have hq : 1 ≤ countOf o c := by omega
+            simp [hp] at h
+            simp [natRat_eq_zero, natRat_le_zero, natRat_pos, natRat_lt_one, natRat_one_le, hq, h]
+          · have hq : ¬ 1 ≤ countOf o c := by omega
+            simp [hp] at h
+            simp [natRat_eq_zero, natRat_le_zero, natRat_pos, natRat_lt_one, natRat_one_le, hq, h]
+      · simp [countCmp, hs0, hs1] at h
+
 /-- SUFFICIENCY LEMMA: a condition built from `count`, run-time symbols, `true/false`, `!`, `&&`, `||`, `?:` depends
     on the options only through WHICH of the five flags are present; its value for any option set is its value under
     the corresponding assignment. -/
@@ -575,8 +720,9 @@ theorem evalA_sound (rows : List OptRow) (maps : List NameMap) (rt : Runtime) (o
     rfl
   | bin op x y ihx ihy =>
     intro b h
-    cases op <;> simp only [evalA] at h <;> try cases h
-    · -- and
+    cases op
+    case and =>
+      simp only [evalA] at h
       rw [evalCond_and]
       cases hx : evalA (assignOf o rt) x with
       | none => simp [hx] at h
@@ -591,7 +737,8 @@ theorem evalA_sound (rows : List OptRow) (maps : List NameMap) (rt : Runtime) (o
           rw [ihy q hy]
           simp [hx, hy] at h
           simp [h]
-    · -- or
+    case or =>
+      simp only [evalA] at h
       rw [evalCond_or]
       cases hx : evalA (assignOf o rt) x with
       | none => simp [hx] at h
@@ -606,6 +753,14 @@ theorem evalA_sound (rows : List OptRow) (maps : List NameMap) (rt : Runtime) (o
           rw [ihy q hy]
           simp [hx, hy] at h
           simp [h]
+    all_goals
+      cases x <;> try (simp [evalA] at h)
+      cases y <;> try (simp [evalA] at h)
+      rename_i c ty s
+      cases ty <;> try (simp [evalA] at h)
+      first
+        | exact count_cmp_sound rows maps rt o _ c s b h
+        | (simp only [evalA] at h; exact count_cmp_sound rows maps rt o _ c s b h)
   | ite c x y ihc ihx ihy =>
     intro b h
     simp only [evalA] at h
